@@ -511,22 +511,33 @@ def failure_case(ctx, case, timeout=10):
     return obs
 
 
+_ALONE = {}
+
+
+def alone_error(b, path):
+    if path not in _ALONE:
+        r, vals = tools.idb(b, ["load:" + path, "sync", "err"])
+        _ALONE[path] = bool(vals[-1].get("error")) if (r.rc == 0 and vals) else None
+    return _ALONE[path]
+
+
 def failure_chunk(arg):
     ctx, cases, wid = arg
-    b, workroot = ctx
+    b, workroot, dbroot = ctx
     workdir = os.path.join(workroot, "f%d" % wid)
     os.makedirs(workdir, exist_ok=True)
     exe = harness.idbdump(b)
     res = []
-    for (kind, bad, apriori, goods, p, pre, backend) in cases:
+    for (kind, bad, apriori, gsel, p, pre, backend) in cases:
+        goods_all, _ = failure_base(dbroot)
+        goods = [goods_all[i] for i in gsel]
         obs = failure_case((b, workdir), (kind, bad, goods, p, pre, backend, "m"))
-        # independent observer: does the library itself report a load error for this set?
-        files = list(goods[:p]) + [bad] + list(goods[p:])
-        r, vals = tools.idb(b, ["load:" + f for f in files] + ["sync", "err"])
-        lib_err = None
-        if r.rc == 0 and vals:
-            lib_err = bool(vals[-1].get("error"))
-        key = "fail/%s/n%d/p%d/%s/%s" % (kind, len(goods), p, "stale" if pre else "fresh", backend.strip("-"))
+        # Does the library accept the damaged file when it is loaded ALONE?  (That verdict is
+        # C12's subject.  The whole set is deliberately NOT asked: the question here is
+        # whether an error survives the databases that follow it.)
+        lib_err = alone_error(b, bad)
+        key = "fail/%s/g%s/p%d/%s/%s" % (kind, "".join(str(i) for i in gsel) or "-", p,
+                                         "stale" if pre else "fresh", backend.strip("-"))
         problems = []
         failed_ok = (obs["rc"] not in (0, None)) and obs["rc"] > 0 and not obs["timeout"] and not obs["exists"]
         if backend == "-c":
@@ -548,7 +559,7 @@ def failure_chunk(arg):
                 problems.append("database loads (only trailing white space removed) but exit status %s, output %s"
                                 % (obs["rc"], "exists" if obs["exists"] else "absent"))
         res.append((key, outcome, True, problems,
-                    {"kind": kind, "position": p, "good": len(goods), "stale_output": pre,
+                    {"kind": kind, "position": p, "good": list(gsel), "stale_output": pre,
                      "backend": backend, "rc": obs["rc"], "output_exists": obs["exists"],
                      "library_error_flag": lib_err, "stderr_tail": obs["stderr"][-200:]}))
     return res
@@ -713,26 +724,31 @@ def main():
     goods_all, victim = failure_base(dbroot)
     bad, size = failure_files(root, victim)
     fcases = []
+    body = len(open(victim, "rb").read().rstrip())
+    # truncations that get the full positional treatment in both tiers: inside the header,
+    # inside the module names, inside a record, one byte short
+    representative = {"trunc@%d" % n for n in (0, 3, 12, 30, body // 3, body // 2, body - 2, body - 1)}
+    all_sel = [(), (0,), (1,), (0, 1), (1, 0)]          # every permutation of 0..2 good databases
     for kind, path, apriori in bad:
-        trunc = kind.startswith("trunc@")
+        trunc = kind.startswith("trunc@") and kind not in representative
         if thorough:
-            good_sets = [[], goods_all[:1], goods_all]
+            good_sets = all_sel
             pres = (False, True)
             backends = ("-python-native", "-python") if trunc else ("-python-native", "-python", "-c")
         else:
-            good_sets = [goods_all] if trunc else [[], goods_all[:1], goods_all]
+            good_sets = [(0, 1)] if trunc else all_sel
             pres = (False,) if trunc else (False, True)
             backends = ("-python-native",) if trunc else ("-python-native", "-python", "-c")
-        for goods in good_sets:
-            positions = range(len(goods) + 1)
+        for gsel in good_sets:
+            positions = range(len(gsel) + 1)             # the bad database at EVERY position
             if trunc and not thorough:
-                positions = (1,)
+                positions = (0, 1)
             for p in positions:
                 for pre in pres:
                     for be in backends:
-                        fcases.append((kind, path, apriori, goods, p, pre, be))
+                        fcases.append((kind, path, apriori, gsel, p, pre, be))
     cl = chunks(fcases, 100)
-    fctx = (b, workroot)
+    fctx = (b, workroot, dbroot)
     fcut = False
     for i in range(0, len(cl), 64):
         if ck.expired(reserve=20):
@@ -784,7 +800,8 @@ def rerun(b, dbroot, wd, key, sample):
         goods_all, victim = failure_base(dbroot)
         bad, _ = failure_files(root, victim)
         path, apriori = [(p, a) for (kd, p, a) in bad if kd == sample["kind"]][0]
-        res = failure_chunk(((b, wd), [(sample["kind"], path, apriori, goods_all[:sample["good"]],
+        gsel = tuple(sample["good"]) if isinstance(sample["good"], list) else tuple(range(sample["good"]))
+        res = failure_chunk(((b, wd, dbroot), [(sample["kind"], path, apriori, gsel,
                                         sample["position"], sample["stale_output"], sample["backend"])], 0))
         return res[0][3], res[0]
     g = tuple(tuple(r) for r in sample["graph"])
